@@ -12,7 +12,7 @@ pub const VOLS: [f64; 9] = [-60.0, -20.0, -6.0, -0.5, 0.0, 0.5, 6.0, 20.0, 60.0]
 
 pub fn run(tier: Tier) -> i32 {
     let rep = Report::new("C16", tier, "model_checking");
-    rep.set_rule("SCOPE: volumes {-60,-20,-6,-0.5,0,0.5,6,20,60} dB x voices (V0 mel-cepstral, generated mel-cepstral, generated LSP 3- and 2-stream) x short utterances x (default condition + every single further deviation); oracle: every sample = 10^(v/20) x the 0 dB sample (rel 1e-12), get_volume within 1e-9, all other getters unchanged; distinct = (voice, other deviation, utterance, volume); non-trivial = v != 0 and non-empty waveform");
+    rep.set_rule("SCOPE: volumes {-60,-20,-6,-0.5,0,0.5,6,20,60} dB x voices (V0 mel-cepstral, generated mel-cepstral, generated LSP 3- and 2-stream) x short utterances x (default condition + every single further deviation); oracle: every sample = 10^(v/20) x the 0 dB sample (rel 1e-12), get_volume within 1e-9, all other getters unchanged; plus streaming use: generate_step into pre-filled buffers of 1x/2x/3x fperiod + 1 samples, where the produced frame is scaled and everything else in the buffer equals the 0 dB run; distinct = (voice, other deviation, utterance, volume); non-trivial = v != 0 and non-empty waveform");
     rep.assume("volume lattice only; comparison skipped on samples that are non-finite in the 0 dB run");
     let corpus = labels::corpus();
     let utts: Vec<Vec<String>> = vec![vec![corpus[41].clone()], corpus[40..43].to_vec(), corpus[0..2].to_vec()];
@@ -123,6 +123,73 @@ pub fn run(tier: Tier) -> i32 {
             }
         }
     });
+    // ---------- streaming use: stepwise generation into oversize, pre-filled buffers ----------
+    // "changes nothing else": at v dB every step must leave exactly what the 0 dB run leaves, except that the
+    // fperiod samples it produces are scaled by the gain – including whatever lies beyond them in the caller's buffer.
+    let stepped = AtomicU64::new(0);
+    {
+        let step_jobs: Vec<(usize, usize, usize)> = (0..voices.len()).flat_map(|vi| (0..utts.len().min(2)).flat_map(move |ui| [1usize, 2, 3].into_iter().map(move |mult| (vi, ui, mult)))).collect();
+        par_for(step_jobs.len(), 1, |j| {
+            let (vi, ui, mult) = step_jobs[j];
+            let v = &voices[vi];
+            if v.3 && ui > 0 {
+                return;
+            }
+            let u = &utts[ui];
+            let run = |vol: f64| -> Result<Vec<(Vec<f64>, Vec<f64>)>, String> {
+                let mut e = v.1.clone();
+                e.condition.set_volume(vol);
+                catch(|| {
+                    let mut g = e.generator(&u[..]).map_err(|x| x.to_string())?;
+                    let fp = g.fperiod();
+                    let mut out = Vec::new();
+                    // a ring of live samples: the tail beyond fperiod holds data the caller has not consumed yet
+                    let mut buf: Vec<f64> = (0..fp * mult + 1).map(|i| 0.25 + i as f64).collect();
+                    loop {
+                        let n = g.generate_step(&mut buf);
+                        if n == 0 {
+                            break;
+                        }
+                        out.push((buf[..fp].to_vec(), buf[fp..].to_vec()));
+                        if out.len() > 100_000 {
+                            break;
+                        }
+                    }
+                    Ok::<_, String>(out)
+                })
+                .unwrap_or_else(|p| Err(format!("panic: {}", p)))
+            };
+            let Ok(base) = run(0.0) else { return };
+            for &vol in &[-60.0, -6.0, 20.0] {
+                rep.eval(1);
+                stepped.fetch_add(1, Ordering::Relaxed);
+                let rp = json!({"voice": v.0, "labels": u, "volume_db": vol, "mode": format!("generate_step into a pre-filled buffer of {} x fperiod + 1 samples", mult)});
+                match run(vol) {
+                    Err(er) => rep.violation("step-synthesis", format!("stepwise generation fails at {} dB: {}", vol, er), rp),
+                    Ok(got) => {
+                        let g = 10f64.powf(vol / 20.0);
+                        if got.len() != base.len() {
+                            rep.violation("step-frames", format!("{} frames at {} dB vs {} at 0 dB", got.len(), vol, base.len()), rp);
+                            continue;
+                        }
+                        for (fi, ((a, ta), (b, tb))) in got.iter().zip(&base).enumerate() {
+                            rep.cmp(2);
+                            let body_ok = a.iter().zip(b).all(|(x, y)| if !y.is_finite() { true } else if *y == 0.0 { *x == 0.0 } else { ((x - y * g) / (y * g)).abs() <= 1e-12 });
+                            if !body_ok {
+                                rep.violation("step-gain", format!("frame {}: stepwise samples at {} dB are not 10^(v/20) x the 0 dB samples", fi, vol), rp.clone());
+                                break;
+                            }
+                            if !bits_eq(ta, tb) {
+                                rep.violation("step-side-effect", format!("frame {}: at {} dB generate_step leaves different data beyond its fperiod samples in the caller's buffer than at 0 dB", fi, vol), rp.clone());
+                                break;
+                            }
+                        }
+                    }
+                }
+            }
+        });
+    }
+    rep.note("stepwise_cases", json!(stepped.load(Ordering::Relaxed)));
     rep.nontrivial.store(nontriv.load(Ordering::Relaxed), Ordering::Relaxed);
     rep.note("bounds", json!({"volumes_db": VOLS, "voices": voices.iter().map(|v| v.0.clone()).collect::<Vec<_>>(), "utterances": utts.len(), "jobs": jobs.len(), "worst_relative_gain_error": *worst.lock().unwrap()}));
     rep.sample(json!({"voice": "V0", "other_condition": [], "labels": utts[0], "volume_db": -60.0}));
